@@ -117,6 +117,25 @@ Section BlockEngine.
     && Bool.eqb (l_start (bi_collapsible a)) (l_start (bi_collapsible b))
     && Bool.eqb (l_end (bi_collapsible a)) (l_end (bi_collapsible b)).
 
+  (* the same key with the eight numbers compared by `teq`: with `eqb` of the Num instance it IS bin_eqb (numbers compared as numbers:
+     +0 = -0, NaN <> NaN), with a representation equality (Model/TaffyKey.v f32_seqb / xq_seqb) it is an EXACT key: equal keys are
+     equal inputs (Proofs/BlockEngineReal.v bin_eqb_with_eq) *)
+  Definition o_eqb_with (teq : T -> T -> bool) (a b : option T) : bool :=
+    match a, b with Some x, Some y => teq x y | None, None => true | _, _ => false end.
+  Definition av_eqb_with (teq : T -> T -> bool) (a b : Avail T) : bool :=
+    match a, b with
+    | Definite x, Definite y => teq x y
+    | MinContent, MinContent | MaxContent, MaxContent => true
+    | _, _ => false
+    end.
+  Definition bin_eqb_with (teq : T -> T -> bool) (a b : BIn T) : bool :=
+    mode_eqb (bi_mode a) (bi_mode b) && Bool.eqb (bi_inherent a) (bi_inherent b)
+    && o_eqb_with teq (s_w (bi_known a)) (s_w (bi_known b)) && o_eqb_with teq (s_h (bi_known a)) (s_h (bi_known b))
+    && o_eqb_with teq (s_w (bi_parent a)) (s_w (bi_parent b)) && o_eqb_with teq (s_h (bi_parent a)) (s_h (bi_parent b))
+    && av_eqb_with teq (s_w (bi_avail a)) (s_w (bi_avail b)) && av_eqb_with teq (s_h (bi_avail a)) (s_h (bi_avail b))
+    && Bool.eqb (l_start (bi_collapsible a)) (l_start (bi_collapsible b))
+    && Bool.eqb (l_end (bi_collapsible a)) (l_end (bi_collapsible b)).
+
   (* dispatch: a node without children is a leaf, every other node a block container *)
   Definition bl_algo (pre : BStyle T -> BIn T -> BIn T) (abs_child : @AbsChild T)
              (n : BNode T) (kids : list (BNode T)) (i : BIn T) : Engine.Alg (BIn T) (ChildOut T) (BLayout T) :=
